@@ -66,6 +66,9 @@ CHECKS = {
  "C08": ("exploration", "lock-step stable-map model + per-key porcupine register check under concurrency + SIGKILL of child processes on real BoltDB",
          "Sequential Set/Get/SetUint64/GetUint64 over key and value classes interleaved with all log op templates and reopens (stable model and log bounds compared after every step, simfs and real BoltDB); concurrent per-key register histories on real BoltDB while a writer appends/rotates/truncates, checked by porcupine partitioned by key under the race detector; child processes doing Set+StoreLogs on the production stack killed with SIGKILL at random acknowledgement counts, three lifetimes per directory.",
          "BoltDB key limits; SIGKILL is process death (page cache survives), power loss of wal-meta.db is not modelled here (bbolt trusted)", "E4 model + E3 proc", "4 C08"),
+ "C09": ("exploration", "independent README-only encoder/decoder: decode, compare with acknowledged batches, re-encode byte-for-byte; golden fixtures of the pinned commit",
+         "After random workloads every segment file is decoded by internal/fmtspec (written from README.md only), compared with the harness's record of acknowledged batches and the codec's payloads, checked against file name and metadata (sealed <=> index frame, IndexStart, index offsets) and re-encoded byte-for-byte; the BoltDB record is read directly with bbolt for the documented JSON fields; 12 golden directories written by the pinned commit must open with identical contents and stay usable.",
+         "README reading: first commit CRC includes the file header; bucket name wal-meta per the property anchors", "E5 fmtspec", "4 C09"),
 }
 
 NOT_YET = {}
@@ -107,6 +110,7 @@ def main():
             {"name": "E2 sched+hist", "path": "internal/sched, internal/hist, checks/c06.go c14.go", "serves_properties": ["C06", "C14"], "kind_free_text": "hook-point scheduling (directed parking, seeded perturbation), API-boundary history recording, interval + porcupine checkers, race detector"},
             {"name": "E1 faults", "path": "checks/c10.go, internal/simfs", "serves_properties": ["C10"], "kind_free_text": "fault injection at every VFS/MetaStore call of re-executed workloads"},
             {"name": "E6 mutate", "path": "checks/c11.go", "serves_properties": ["C11"], "kind_free_text": "corruption operators over valid directories with budgets"},
+            {"name": "E5 fmtspec", "path": "internal/fmtspec, checks/c09.go, golden/", "serves_properties": ["C09"], "kind_free_text": "independent implementation of the documented on-disk format + fixtures from the pinned commit"},
             {"name": "E1 crashsim", "path": "internal/crashsim, internal/simfs", "serves_properties": ["C01", "C02", "C03", "C04", "C13"], "kind_free_text": "production wal+segment over a crash/fault-simulating VFS+MetaStore; snapshots at every I/O boundary; crash images; model oracle"},
         ],
         "checks": checks,
